@@ -30,14 +30,15 @@ Definition oracle (c : Case) : bool :=
   | None => false
   end.
 
-(* correspondence with the reader model, for views of the modelled kinds *)
+(* correspondence with the reader model (all kinds of the dispatcher): same outcome class and,
+   when Ok, the same presented value; one past the end there is no item *)
 Definition read_corr (a : Arr) (r : nat * Outcome (option RVal)) : bool :=
   let '(i, out) := r in
-  match out with
-  | Ok None => Nat.leb (arr_len a) i
-  | Ok (Some got) => Nat.ltb i (arr_len a) && match read a i with Ok e => rval_eqb e got | _ => false end
-  | Err => Nat.ltb i (arr_len a) && match read a i with Err => true | _ => false end
-  | Panic _ => Nat.ltb i (arr_len a) && match read a i with Panic _ => true | _ => false end
+  match out, read_top a i with
+  | Ok x, Ok y => option_eqb rval_eqb x y
+  | Err, Err => true
+  | Panic _, Panic _ => true
+  | _, _ => false
   end.
 Definition corr (c : Case) : bool :=
   if modelled_arr (c_view c) then forallb (read_corr (c_view c)) (c_reads c) else true.
